@@ -9,13 +9,13 @@ Offset == atoi(IOEnv.VERIF_C10_OFFSET)
 
 Ch(cp, form) == [k |-> "ch", cp |-> cp, form |-> form]
 FormsOf(cp) ==
-  (IF cp \in {97, 122, 65, 75, 107, 115, 83, 48, 57, 95, 233, 383, 8490, 119070} THEN {"raw"} ELSE {})
+  (IF cp \in {97, 122, 65, 75, 107, 115, 83, 48, 57, 95, 233, 383, 837, 8490, 8551, 9398, 119070} THEN {"raw"} ELSE {})
   \cup (IF cp <= 255 THEN {"x2", "oct"} ELSE {})
   \cup (IF cp <= 65535 THEN {"u4"} ELSE {})
   \cup {"U8", "xb"}
   \cup (IF cp \in {45, 93, 46, 92, 94} THEN {"bs"} ELSE {})
   \cup (IF cp \in {9, 10, 13} THEN {"ctl"} ELSE {})
-CPs == {1, 9, 10, 45, 46, 48, 57, 65, 75, 83, 92, 93, 94, 95, 97, 107, 115, 122, 127, 128, 233, 254, 255, 383, 8490, 119070, 1114110, 1114111}
+CPs == {1, 9, 10, 45, 46, 48, 57, 65, 75, 83, 92, 93, 94, 95, 97, 107, 115, 122, 127, 128, 233, 254, 255, 383, 837, 8490, 8551, 9398, 119070, 1114110, 1114111}
 Chars == UNION { { Ch(cp, f) : f \in FormsOf(cp) } : cp \in CPs }
 Rng(lo, flo, hi, fhi) == [k |-> "range", lo |-> lo, hi |-> hi, flo |-> flo, fhi |-> fhi]
 Ranges == { Rng(97, "raw", 122, "raw"), Rng(65, "raw", 90, "x2"), Rng(48, "raw", 57, "raw"), Rng(97, "u4", 107, "raw"),
